@@ -7,6 +7,12 @@ DfaOf(d, F) == [Q |-> Q, S |-> S, T |-> {<<q, a, d[<<q, a>>]>> : q \in Q, a \in 
                 q0 |-> Q0, F |-> F, eps |-> "~none~"]
 AllDfas == {DfaOf(d, F) : d \in [Q \X S -> Q], F \in SUBSET Q}
 
+(* TLC generates the successors of one state - and checks the invariants on    *)
+(* them - in a single thread.  The models therefore choose their input in two  *)
+(* steps (first F, then delta) so that the cases spread over all workers.      *)
+DfasWithF(F) == {DfaOf(d, F) : d \in [Q \X S -> Q]}
+DummyDfa == DfaOf([p \in Q \X S |-> Q0], {})
+
 NerodePartition(D) == {{q \in D.Q : StatesEquivalent(D, p, q)} : p \in D.Q}
 
 IsPartition(P, X) == /\ UNION P = X
